@@ -35,6 +35,7 @@ YOUR WORKSPACE: a scratch git worktree of the repository at {wt} (already create
 HOW TO RUN THINGS (no network; do not install anything):
   cd {wt} && PYTHONPATH={wt}/src JAX_PLATFORMS=cpu /venv/bin/python your_script.py
   cd {wt} && PYTHONPATH={wt}/src JAX_PLATFORMS=cpu /venv/bin/python -m pytest -q -p no:cacheprovider -x tests/unit/<relevant files>
+NEVER use `git stash` (the stash is shared between all worktrees of this repository and other people use it concurrently): to go back to a clean tree save your diff with `git diff > file` and run `git checkout -- .`; re-apply with `git apply file`.
 NOTE: without PYTHONPATH the interpreter imports a stale installed copy of fdtdx from site-packages, so ALWAYS set PYTHONPATH={wt}/src (check with: python -c "import fdtdx; print(fdtdx.__file__)"). Some test modules that touch the time loop fail to collect in this environment regardless of your change; that is expected — compare against the unpatched tree.
 
 WHAT EACH VARIANT MUST BE:
